@@ -132,6 +132,15 @@ func runScenario(id string, s *Scenario, out *workerOut, deadline time.Time) {
 // budget is the wall-clock allowance per worker (0 = none); running out of it is reported as
 // exhaustive:false, never as a violation.
 func RunAll(r *vk.Run, scenarios []Scenario, budget time.Duration) {
+	if only := os.Getenv("VERIF_ONLY"); only != "" { // debugging aid: restrict to matching scenarios
+		var sel []Scenario
+		for _, s := range scenarios {
+			if strings.Contains(s.Name, only) {
+				sel = append(sel, s)
+			}
+		}
+		scenarios = sel
+	}
 	if r.Replay != "" {
 		replay(r, scenarios)
 		return
